@@ -120,6 +120,7 @@ func lockstep(env *vh.Env, rep *vh.Report, fams []*family) {
 			dead := isDead(f.typ)
 			for _, lc := range lockstepCases(f) {
 				for r := 0; r < reps && !dead && !(r >= 2 && phaseOver()); r++ {
+					at("lock-step %s prefill %v calls %v", f.typ, lc.prefill, lc.calls)
 					hist, why := lockstepRun(f, lc)
 					if strings.Contains(why, "did not finish") {
 						dead = true // do not pile up watchdog waits on a type that hangs
@@ -196,3 +197,5 @@ func lockstepRun(f *family, lc lockstepCase) ([]hop, string) {
 	}
 	return hist, ""
 }
+
+func unsafePointer(v reflect.Value) unsafe.Pointer { return unsafe.Pointer(v.UnsafeAddr()) }
